@@ -188,6 +188,8 @@ structure SurveyState where
   namespaces : Option (List Str)
   lists : List (Str × Bool)          -- `self.choices`: list name ↦ `used_by_search`
   selects : List SelectQ
+  names : List Str := []             -- names of all survey elements (with multiplicity; immutable tree)
+  triggerRefs : List Str := []       -- keys of `setvalues_by_triggering_ref` / `setgeopoint_by_triggering_ref`
   deriving DecidableEq, Repr
 
 def entitiesDecl : Str := "entities=http://www.opendatakit.org/xforms/entities".toList
@@ -231,8 +233,22 @@ def redirectSearch (s : SurveyState) : Except Str SurveyState :=
       selects := s.selects.map fun q => if q.search then { q with itemset := [] } else q
       lists := s.lists.map fun l => (l.1, l.2 || decide (l.1 ∈ searched)) }
 
-/-- the survey object after one `xml()` call -/
-def afterXml (s : SurveyState) : Except Str SurveyState := redirectSearch (nsAppend s)
+/-- `Survey.xml()` (survey.py:344-352): every key of the trigger maps is resolved with `insert_xpaths`
+before anything is generated; a name that is not carried by exactly one element is an error. -/
+def validateTriggers (s : SurveyState) : Except Str Unit :=
+  match s.triggerRefs.find? fun r => decide ((s.names.filter (· = r)).length ≠ 1) with
+  | some r => .error r
+  | none => .ok ()
+
+/-- the survey object after one `xml()` call.  `get_trigger_values_for_question_name` reads the
+trigger maps with `dict.get`, so generation adds no key to them. -/
+def afterXml (s : SurveyState) : Except Str SurveyState :=
+  (validateTriggers s).bind fun _ => redirectSearch (nsAppend s)
+
+/-- Hypothetical (defect class "reading a `defaultdict` by index during generation"): every question
+name becomes a key of the trigger map during the first `xml()`. -/
+def afterXmlInserting (s : SurveyState) : Except Str SurveyState :=
+  (afterXml s).map fun s' => { s' with triggerRefs := s'.triggerRefs ++ s'.names.filter (· ∉ s'.triggerRefs) }
 
 /-- what the XForm shows of these fields: namespace declarations on `<h:html>`, the static choice
 instances generated (`if not v.used_by_search`), and per select whether it gets an `<itemset>` -/
@@ -319,12 +335,24 @@ headers, in set order -/
 def missingHeaders (π : SetOrder) (required present : List Str) : List Str :=
   π.iter (required.filter (· ∉ present))
 
-/-- `external_choices_to_csv` (utils.py:190-196): the header row. With `external_choices_header`
-present it is that dict's key order; the fallback is a set of all row keys. -/
-def itemsetsHeader (π : SetOrder) (header : Option (List Str)) (rows : List (List Str)) : List Str :=
+/-- `external_choices_to_csv` (utils.py:190-198): the header row. With `external_choices_header`
+present it is that dict's key order; the fallback (repaired, 1948d14) is `dict.fromkeys` over all
+row keys: first-seen order. -/
+def itemsetsHeader (header : Option (List Str)) (rows : List (List Str)) : List Str :=
+  match header with
+  | some h => h
+  | none => dedup rows.flatten
+
+/-- before 1948d14 the fallback was a set of all row keys -/
+def itemsetsHeaderPre (π : SetOrder) (header : Option (List Str)) (rows : List (List Str)) : List Str :=
   match header with
   | some h => h
   | none => π.iter (dedup rows.flatten)
+
+/-- Hypothetical (defect class "de-duplicate through a set"): `get_nsmap` iterating
+`set(self.namespaces.split())` instead of the list. -/
+def nsmapOfSet (π : SetOrder) (base : List (Str × Str)) (tokens : List Str) : List (Str × Str) :=
+  nsmapOf base (π.iter (dedup tokens))
 
 def requiredHeaders : List (String × List String) := Pyxv.Gen.requiredHeaders
 
@@ -335,7 +363,7 @@ structure SetSiteInput where
   tr : Trans
   required : List Str
   headersPresent : List Str
-  extHeader : List Str
+  extHeader : Option (List Str)
   extRows : List (List Str)
 
 def extInstances : List Str := Pyxv.Gen.externalInstances.map String.toList
@@ -344,7 +372,7 @@ def outπ (π : SetOrder) (x : SetSiteInput) : List Str × Trans × List Str × 
   (pulldataOrder true π extInstances (fun a => a ∈ x.present),
    padFixed x.tr,
    missingHeaders π x.required x.headersPresent,
-   itemsetsHeader π (some x.extHeader) x.extRows)
+   itemsetsHeader x.extHeader x.extRows)
 
 def out (x : SetSiteInput) : List Str × Trans × List Str × List Str := outπ SetOrder.id x
 
